@@ -127,7 +127,10 @@ func c04KindsBase() []c04Kind {
 		{id: "struct-fields", kind: "decl", lit: map[string]string{"a": "a int", "b": "b, bb string", "c": "C"}, mvar: "x int", meta: model.MetaVar{Name: "x", Kind: "identifier"},
 			dots: "DOTS_%d", sep: "; ", open: "type S struct {", close: "}", openPlus: "type Mark struct {", eol: "", mark: "mark int", markX: "x mark", oneLine: true,
 			fileOpen: "package p\n\ntype S struct {", fileEnd: "}\n"},
-		{id: "stmts-funcbody", kind: "decl", lit: map[string]string{"a": "a()", "b": "b.c = 1", "c": "if g(1) { a() }"}, mvar: "x()", meta: model.MetaVar{Name: "x", Kind: "identifier"},
+		{id: "struct-fields-embedded", kind: "decl", lit: map[string]string{"a": "*A", "b": "p.B", "c": "c []int"}, mvar: "x int", meta: model.MetaVar{Name: "x", Kind: "identifier"},
+			dots: "DOTS_%d", sep: "; ", open: "type S struct {", close: "}", openPlus: "type Mark struct {", eol: "", mark: "mark int", markX: "x mark", oneLine: true,
+			fileOpen: "package p\n\ntype S struct {", fileEnd: "}\n"},
+		{id: "stmts-funcbody", kind: "decl", lit: map[string]string{"a": "a()", "b": "*b.c = 1", "c": "if g(1) { a() }"}, mvar: "x()", meta: model.MetaVar{Name: "x", Kind: "identifier"},
 			dots: "DOTS_%d", sep: "; ", open: "func f() {", close: "}", openPlus: "func mark() {", eol: "", mark: "mark()", markX: "mark(x)", oneLine: true,
 			fileOpen: "package p\n\nfunc f() {", fileEnd: "}\n"},
 		{id: "return-list", kind: "stmts", lit: map[string]string{"a": "a", "b": "b.c", "c": "g(1)"}, mvar: "x", meta: model.MetaVar{Name: "x", Kind: "expression"},
@@ -173,7 +176,7 @@ func c04KindsBase() []c04Kind {
 			fileOpen: "package p\n\nfunc _() {\n\tselect {\n\tcase <-ch:\n", fileEnd: "\n\t}\n}\n"},
 		// the statement list itself is the pattern (implicit elisions at both ends, explicit ones inside): it is
 		// matched against the whole body, no statement before or after
-		{id: "stmts-top", kind: "stmts", lit: map[string]string{"a": "a()", "b": "b.c = 1", "c": "if g(1) { a() }"}, mvar: "x()", meta: model.MetaVar{Name: "x", Kind: "identifier"},
+		{id: "stmts-top", kind: "stmts", lit: map[string]string{"a": "*a.p = 1", "b": "[]int{1}[0]++", "c": "if g(1) { a() }"}, mvar: "x()", meta: model.MetaVar{Name: "x", Kind: "identifier"},
 			dots: "DOTS_%d", sep: "; ", open: "", close: "", eol: "", mark: "mark()", markX: "mark(x)",
 			fileOpen: "package p\n\nfunc f() {", fileEnd: "}\n"},
 		{id: "stmts-ifbody", kind: "stmts", lit: map[string]string{"a": "a()", "b": "b.c = 1", "c": "for { a() }"}, mvar: "x()", meta: model.MetaVar{Name: "x", Kind: "identifier"},
@@ -258,11 +261,14 @@ func c04Gen(tier string, emit func(any)) {
 					}
 					sep := k.sep
 					file := k.fileOpen + strings.Join(els, sep) + k.fileEnd
-					if strings.HasPrefix(k.id, "stmts") || k.id == "struct-fields" || k.id == "iface-methods" {
+					if strings.HasPrefix(k.id, "stmts") || strings.HasPrefix(k.id, "struct-fields") || k.id == "iface-methods" {
 						file = k.fileOpen + "\n" + strings.Join(els, "\n") + "\n" + k.fileEnd
 					}
 					if ch.layout == "ctx-inline" {
 						file = k.inlineFileOpen + strings.Join(els, sep) + k.inlineFileEnd
+					}
+					if ch.layout == "ctx-two-removed" {
+						file = strings.Replace(k.inlineFileOpen, "pre()", "pre(1, 2)\n\tpre2(\"p\", true)", 1) + strings.Join(els, sep) + k.inlineFileEnd
 					}
 					if ch.layout == "ctx-moved" {
 						file = strings.Replace(k.inlineFileOpen, "pre()", "pre(1, 2)", 1) + strings.Join(els, sep) + k.inlineFileEnd
@@ -408,6 +414,19 @@ func c04Changes(k c04Kind, pat []string) []c04Change {
 			ch.alts = append(ch.alts, mk(j))
 		}
 		out = append(out, ch)
+	}
+	// layout (v): two sibling calls with elisions of their own are removed above the context line that holds the list
+	if k.inlineKind == "stmts" {
+		var els []string
+		di := 0
+		for _, e := range pat {
+			if e == "D" {
+				di++
+			}
+			els = append(els, elem(e, di+2))
+		}
+		ctx := " " + k.inlineOpen + strings.Join(els, k.sep) + k.inlineClose
+		out = append(out, c04Change{c: &model.Change{Meta: meta, Kind: "stmts", Lines: model.L("-pre(DOTS_1)", "-pre2(DOTS_2)", ctx)}, layout: "ctx-two-removed"})
 	}
 	// layout (ii): exactly one elision on each side, single line, both orders
 	nd := 0
